@@ -37,6 +37,7 @@ type Interpreter struct {
 	penaltyBoxes  map[string]*value.Penaltybox
 	callStack     []*ast.SubroutineDeclaration
 	includeChain  []string // modules whose include statements are being resolved (cycle detection)
+	passed        bool     // the current attempt of the request went through vcl_pass
 	Debugger      Debugger
 	IdentResolver func(v string) value.Value
 
@@ -312,6 +313,7 @@ func (i *Interpreter) ProcessBackends(statements []ast.Statement) error {
 
 func (i *Interpreter) ProcessRecv() error {
 	i.SetScope(context.RecvScope)
+	i.passed = false
 
 	// Simulate Fastly statement lifecycle
 	// see: https://developer.fastly.com/learning/vcl/using/#the-vcl-request-lifecycle
@@ -532,6 +534,7 @@ func (i *Interpreter) ProcessHit() error {
 
 func (i *Interpreter) ProcessPass() error {
 	i.SetScope(context.PassScope)
+	i.passed = true
 
 	if i.ctx.Backend == nil {
 		return exception.Runtime(nil, "No backend determined in PASS")
@@ -624,7 +627,11 @@ func (i *Interpreter) ProcessFetch() error {
 		}
 	}
 
-	i.updateCache()
+	// Only an object that was looked up, fetched and delivered is cached: not when the
+	// request was passed, and not when vcl_fetch ends with pass, hit_for_pass, error or restart
+	if !i.passed && (state == DELIVER || state == DELIVER_STALE) {
+		i.updateCache()
+	}
 	switch state {
 	case DELIVER, DELIVER_STALE, PASS, HIT_FOR_PASS:
 		i.Debugger.Message(fmt.Sprintf("Move state: %s -> DELIVER", i.ctx.Scope))
